@@ -15,7 +15,9 @@ from __future__ import annotations
 
 import importlib
 import os
+import json
 import shutil
+import subprocess
 import tempfile
 from concurrent.futures import ProcessPoolExecutor
 from pathlib import Path
@@ -23,15 +25,34 @@ from pathlib import Path
 from .core import PKG_REL, run_property
 
 
+VERIF = Path(__file__).resolve().parent.parent
+
+
 def _load_mutants(pid: str) -> list[dict]:
     try:
         m = importlib.import_module(f"wgverif.mutants.{pid.lower()}")
+        muts = list(getattr(m, "MUTANTS", []))
     except ModuleNotFoundError:
-        return []
-    return list(getattr(m, "MUTANTS", []))
+        muts = []
+    # stored patches: every behaviour-preserving refactor must leave every check silent,
+    # every stored seeded change must make the checks recorded in its meta.json fire
+    for d in sorted((VERIF / "refactors").glob("*/patch.diff")):
+        muts.append(dict(id=f"refactor-{d.parent.name}", kind="twin", patch=str(d)))
+    for d in sorted((VERIF / "seeded").glob("*/meta.json")):
+        try:
+            meta = json.loads(d.read_text())
+        except ValueError:
+            continue
+        det = meta.get("detected_by", {})
+        if pid in det and det[pid].get("exit") == 1 and (d.parent / "patch.diff").exists():
+            muts.append(dict(id=f"seeded-{d.parent.name}", kind="break", patch=str(d.parent / "patch.diff")))
+    return muts
 
 
 def apply_edit(root: Path, mut: dict) -> bool:
+    if mut.get("patch"):
+        r = subprocess.run(["git", "apply", "--whitespace=nowarn", mut["patch"]], cwd=root, capture_output=True, text=True)
+        return r.returncode == 0
     edits = mut.get("edits") or [dict(file=mut["file"], old=mut["old"], new=mut["new"])]
     texts = {}
     for e in edits:
@@ -58,7 +79,7 @@ def _one(args) -> dict:
         shutil.copytree(Path(repo) / PKG_REL, dst, ignore=shutil.ignore_patterns("__pycache__"))
         if not apply_edit(tmp, mut):
             return dict(id=mut["id"], kind=mut["kind"], status="skipped")
-        mfile = mut.get("file") or mut["edits"][0]["file"]
+        mfile = mut.get("file") or (mut["edits"][0]["file"] if mut.get("edits") else "")
         if mfile.endswith(".py"):
             try:
                 compile((dst / mfile).read_text(), "x", "exec")
